@@ -34,28 +34,35 @@ C04ok(c) == /\ c.comp <= c.nout
             /\ (c.form = "global" => \A f, g \in Facets(c.dim) : c.conds[f] = c.conds[g] /\ c.conds[f] # "none")
             /\ (\E f \in Facets(c.dim) : c.conds[f] # "none")
             /\ (c.lkind = "statio" => c.nt = 1)
-            /\ (c.dim = 1 => c.nb = 1)
+            /\ (c.dim = 1 => c.nb <= 2)       \* 1-D: the facet is one point; a hand-built batch may repeat it (nb = 2 rows)
             /\ (c.nb * c.nt <= MaxB)
 C05 == UNION {[kind : {"loss_struct"}, family : {"C05"}, lkind : {lk}, term : {"ic", "norm", "obs"}, nout : 1..3, b : Bs,
                ns : {2, 4, 8}, L : {1, 2, 4}, wform : {"scalar", "vector"}, sl : {"all", "first", "last"}, etab : BOOLEAN, cart : BOOLEAN,
                sol : {"all", "tail"}]      \* slice_solution: every output, or all but the first (the observation slice is relative to it)
               : lk \in LKinds}
 C05ok(c) == /\ (c.term = "ic" => c.lkind # "statio" /\ c.ns = 2 /\ c.L = 1 /\ c.sl = "all" /\ ~c.etab)
-            /\ (c.term = "norm" => c.lkind # "ode" /\ c.wform = "scalar" /\ c.sl \in {"all", "first"} /\ ~c.etab /\ c.nout <= 2
+            /\ (c.term = "norm" => c.lkind # "ode" /\ c.wform = "scalar" /\ c.sl \in {"all", "first"} /\ ~c.etab /\ (c.nout <= 2 \/ c.sol = "tail")
                                    /\ (c.sl = "all" => c.nout = 1))
             /\ (c.term = "obs" => c.ns = 2 /\ c.L = 1 /\ ~c.cart)
-            /\ (c.sol = "tail" => c.term = "obs" /\ c.nout >= 2 /\ (c.sl # "all" => c.nout = 3) /\ (c.wform = "vector" => c.nout = 3))
+            /\ (c.sol = "tail" => (c.term = "obs" /\ c.nout >= 2 /\ (c.sl # "all" => c.nout = 3) /\ (c.wform = "vector" => c.nout = 3))
+                                   \/ (c.term = "norm" /\ c.nout >= 2 /\ c.sl = "first"))     \* normalisation of a solution slice 2..nout (two components when nout = 3)
             /\ (c.term # "ic" \/ c.lkind = "ode" => ~c.cart \/ c.term = "norm")
             /\ (c.lkind = "ode" /\ c.term = "ic" => c.wform = "scalar" /\ c.b = 1)
             /\ (c.sl # "all" => c.nout >= 2)
             /\ (c.wform = "vector" => c.nout >= 2 /\ (c.term = "obs" => c.sl = "all"))
 PKeys == 1..3
 C12 == UNION {[kind : {"loss_struct"}, family : {"C12"}, lkind : {lk}, batched : SUBSET PKeys, pshape : {"scalar", "one"},
-               ot : BOOLEAN, hetero : {"none", "k1", "k3map", "k1k3", "k3k1"}, obsk : BOOLEAN, b : {2, 4}, pint : BOOLEAN]     \* k1k3 / k3k1: TWO heterogeneous keys, one map reading the RAW value of the other
+               ot : BOOLEAN, hetero : {"none", "k1", "k3map", "k1k3", "k3k1"}, obsk : BOOLEAN, b : {2, 4}, pint : BOOLEAN, normp : BOOLEAN,
+               bndp : {"none", "dirichlet", "neumann"}]     \* k1k3 / k3k1: TWO heterogeneous keys, one map reading the RAW value of the other
               : lk \in LKinds}
 \* pint: the batched tables are integer-typed arrays (only with a batch, plain networks, no heterogeneity: the values are the same integers)
 C12ok(c) == (c.hetero # "none" => c.batched \subseteq {1, 2} /\ ~c.obsk) /\ (c.obsk => 3 \notin c.batched)
             /\ (c.pint => c.batched # {} /\ c.hetero = "none" /\ ~c.obsk /\ c.pshape = "scalar")
+            \* normp: a normalisation term next to a parameter batch the network depends on (stationary: sample s with row s;
+            \* non-stationary: the integral at the time stamp of row j with parameter row j)
+            /\ (c.normp => c.lkind # "ode" /\ c.batched # {} /\ c.batched \subseteq {1, 2} /\ c.ot /\ c.hetero = "none" /\ ~c.obsk /\ ~c.pint)
+            \* bndp: a boundary condition next to a parameter batch the network depends on: border row j is evaluated with parameter row j
+            /\ (c.bndp # "none" => c.lkind # "ode" /\ c.batched # {} /\ c.batched \subseteq {1, 2} /\ c.ot /\ c.hetero = "none" /\ ~c.obsk /\ ~c.pint /\ ~c.normp)
 C13 == [kind : {"loss_struct"}, family : {"C13"}, lkind : LKinds, neq : 1..3, nunk : 1..3, naming : {"same", "different", "overlap"},
         wform : {"scalar", "dict", "nodyn", "nocons"}, icpat : {"none", "first", "all"}, obspat : {"none", "first", "all"}, bnd : BOOLEAN, pbatch : BOOLEAN,
         shared : BOOLEAN,
